@@ -22,7 +22,9 @@ CONSTANTS
   KeyOf,        \* Trees -> Keys: the structural key (hash((root, tree)) in the code)
   EditTo,       \* Trees -> Trees: the tree an in-place edit turns a tree into (identity = no edits)
   InvalidateOnEdit, \* TRUE: an edit drops the object's cached hash (as invalidate_hash does)
-  IoMode        \* TRUE: start_next_message may clear solution set and cache (IoEvaluator)
+  IoMode,       \* TRUE: start_next_message may clear solution set and cache (IoEvaluator)
+  Record,       \* TRUE: keep the history of operations (for replay into the real Evaluator)
+  MaxOps        \* bound on the length of recorded histories
 
 VARIABLES
   obj,       \* the caller's object: which abstract tree it currently is (edits change it)
@@ -31,13 +33,16 @@ VARIABLES
   solSet,    \* keys already handed out
   emitLog,   \* sequence of trees handed out, in order
   evaluated, \* trees evaluated so far
-  last       \* result returned by the last Evaluate (what the caller sees)
-vars == <<obj, objKey, fit, solSet, emitLog, evaluated, last>>
+  last,      \* result returned by the last Evaluate (what the caller sees)
+  hist       \* recorded operations: [op, arg, emits, all]
+vars == <<obj, objKey, fit, solSet, emitLog, evaluated, last, hist>>
 
 -----------------------------------------------------------------------------
 (* The rule, as operators over explicit arguments (shared with Trace_Eval). *)
 
 
+Rec(op, arg, emits, all) == IF Record THEN (Len(hist) < MaxOps /\ hist' = Append(hist, [op |-> op, arg |-> arg, emits |-> emits, all |-> all]))
+                           ELSE UNCHANGED hist
 Fresh(t) == [hs |-> Cardinality(SatH[t]), rs |-> Cardinality(SatR[t]),
              all |-> AllSatCounts(NH, NR, Cardinality(SatH[t]), Cardinality(SatR[t])),
              failing |-> <<(1..NH) \ SatH[t], (1..NR) \ SatR[t]>>]
@@ -52,6 +57,7 @@ Init ==
   /\ emitLog = <<>>
   /\ evaluated = {}
   /\ last = [kind |-> "none"]
+  /\ hist = IF Record THEN <<[op |-> "take", arg |-> obj, emits |-> FALSE, all |-> FALSE]>> ELSE <<>>
 
 (* evaluate_individual on a cache miss: compute, maybe emit, store. *)
 EvalMiss ==
@@ -63,6 +69,7 @@ EvalMiss ==
                  /\ emitLog' = Append(emitLog, obj)
             ELSE UNCHANGED <<solSet, emitLog>>
        /\ last' = [kind |-> "miss", tree |-> obj, res |-> res]
+       /\ Rec("eval", obj, Accept(res.all, objKey, solSet), res.all)
   /\ evaluated' = evaluated \cup {obj}
   /\ UNCHANGED <<obj, objKey>>
 
@@ -70,12 +77,14 @@ EvalMiss ==
 EvalHit ==
   /\ objKey \in DOMAIN fit
   /\ last' = [kind |-> "hit", tree |-> obj, res |-> fit[objKey]]
+  /\ Rec("eval", obj, FALSE, fit[objKey].all)
   /\ evaluated' = evaluated \cup {obj}
   /\ UNCHANGED <<obj, objKey, fit, solSet, emitLog>>
 
 (* The caller takes another tree object. *)
 Switch(t) ==
-  /\ obj' = t /\ objKey' = KeyOf[t]
+  /\ obj' = t /\ objKey' = KeyOf[t] /\ t # obj
+  /\ Rec("take", t, FALSE, FALSE)
   /\ UNCHANGED <<fit, solSet, emitLog, evaluated, last>>
 
 (* In-place edit of the object (set_children / add_child ...). *)
@@ -83,12 +92,14 @@ Edit ==
   /\ EditTo[obj] # obj
   /\ obj' = EditTo[obj]
   /\ objKey' = IF InvalidateOnEdit THEN KeyOf[EditTo[obj]] ELSE objKey
+  /\ Rec("edit", EditTo[obj], FALSE, FALSE)
   /\ UNCHANGED <<fit, solSet, emitLog, evaluated, last>>
 
 (* IoEvaluator.start_next_message *)
 StartNextMessage ==
   /\ IoMode
   /\ fit' = <<>> /\ solSet' = {}
+  /\ Rec("next_message", 0, FALSE, FALSE)
   /\ UNCHANGED <<obj, objKey, emitLog, evaluated, last>>
 
 Next == EvalMiss \/ EvalHit \/ Edit \/ StartNextMessage \/ \E t \in Trees : Switch(t)
